@@ -288,7 +288,59 @@ CHECKS = {
 
 
 def run(pid, tier):
-    return CHECKS[pid](tier)
+    rep = CHECKS[pid](tier)
+    if tier == 'thorough' and not os.environ.get('VERIF_NO_SELFTEST'):
+        selftests(pid, rep)
+    return rep
+
+
+def selftests(pid, rep):
+    """thorough tier: the checker is itself checked both ways on scratch copies of the CURRENT tree -
+    every mutant of this property's bank must be reported (sensitivity), every behaviour-preserving
+    edit of the benign bank must leave this check quiet (no false alarm).  A missed mutant or a false
+    alarm is 'analysis broken' (exit 2): the checker lost its footing, the property is not judged."""
+    import subprocess
+    import sys
+    here = os.path.join(VERIF, 'selftest')
+    env = dict(os.environ)
+    env['VERIF_NO_SELFTEST'] = '1'
+    out = {}
+    mfile = os.path.join(here, 'mutants', '%s.json' % pid)
+    if os.path.exists(mfile):
+        r = subprocess.run([sys.executable, os.path.join(here, 'run_mutants.py'), pid], capture_output=True, text=True, env=env)
+        lines = r.stdout.strip().split('\n')
+        det = sum(1 for l in lines if l.startswith('detected'))
+        mis = [l for l in lines if l.startswith('MISSED')]
+        skp = [l for l in lines if l.startswith('skipped')]
+        out['mutants'] = {'detected': det, 'missed': [m[:120] for m in mis], 'skipped': [x[:120] for x in skp]}
+        for m in mis:
+            rep.broken.append('self-test: seeded mutant not reported: %s' % m[10:110].strip())
+    bdir = os.path.join(here, 'benign')
+    if os.path.isdir(bdir):
+        items = []
+        for f in sorted(os.listdir(bdir)):
+            if f.endswith('.json'):
+                items.extend(json.load(open(os.path.join(bdir, f))))
+        sys.path.insert(0, here)
+        import run_benign
+        import concurrent.futures
+        quiet = 0
+        alarms, unk = [], []
+        with concurrent.futures.ThreadPoolExecutor(max_workers=8) as ex:
+            futs = [(m, ex.submit(run_benign.run_one, m, [pid])) for m in items]
+            for m, fu in futs:
+                for st, p2, info in fu.result():
+                    if st == 'quiet':
+                        quiet += 1
+                    elif st == 'FALSE-ALARM':
+                        alarms.append(m['name'])
+                    elif st == 'unknown':
+                        unk.append(m['name'])
+        out['benign'] = {'quiet': quiet, 'false_alarms': alarms, 'cannot_classify': unk}
+        for a in alarms:
+            rep.broken.append('self-test: false alarm on a behaviour-preserving edit: %s' % a)
+    rep.extra['selftest'] = out
+    print('   self-test: %s' % json.dumps(out)[:400])
 
 
 def write_broken_evidence(pid, tier, msg):
